@@ -85,7 +85,7 @@ def run(ctx, replay=None):
         ops.append('ini %d %s' % (d[0], text)); exp.append((i, e))
         if b'@INCLUDE ' not in unhex(text) and (i % 3 == 0):
             ops.append('inif %d %s' % (d[0], text)); exp.append((i, e))
-    il, ml, err = both(ctx, 'conf', exe, env_ops() + ops)
+    il, ml, err = both_conf(ctx, exe, env_ops() + ops)
     if err:
         ctx.broken.append(('correspondence:ini-run', err))
     il, ml = il[len(ENV_SET):], ml[len(ENV_SET):]
@@ -110,7 +110,7 @@ def run(ctx, replay=None):
     mal = [unhex(o.split(' ', 2)[2]) for o in ops[:400 if quick else 12000] if o.startswith('ini ')]
     mops = ['ini 61 ' + hx(mutate(rng, t, INI_SIG)) for t in mal] + ['ini 61 ' + hx(t) for t in INI_HOSTILE]
     mops += ['inif 61 ' + hx(t) for t in INI_HOSTILE if b'@INCLUDE ' not in t]
-    il, ml, err = both(ctx, 'conf', exe, env_ops() + mops)
+    il, ml, err = both_conf(ctx, exe, env_ops() + mops)
     if err:
         ctx.broken.append(('correspondence:ini-mal-run', err))
     il, ml = il[len(ENV_SET):], ml[len(ENV_SET):]
@@ -172,7 +172,7 @@ def run(ctx, replay=None):
         ops.append('ac %d %d %s %s' % (c[0], c[1], enc_table(c[2]), text)); exp.append((i, e))
     if example:
         ops.append('ac 1 0 %s %s' % (enc_table(t0), hx(example))); exp.append((None, None))
-    il, ml, err = both(ctx, 'conf', exe, ops)
+    il, ml, err = both_conf(ctx, exe, ops)
     if err:
         ctx.broken.append(('correspondence:aconf-run', err))
     for k, op in enumerate(ops):
@@ -207,7 +207,7 @@ def run(ctx, replay=None):
     for t in AC_HOSTILE:
         for f, d in ((0, 0), (3, 0), (2, 1)):
             mops.append('ac %d %d %s %s' % (f, d, enc_table(AC_C17_TABLE), hx(t)))
-    il, ml, err = both(ctx, 'conf', exe, mops)
+    il, ml, err = both_conf(ctx, exe, mops)
     if err:
         ctx.broken.append(('correspondence:aconf-mal-run', err))
     for k, op in enumerate(mops):
